@@ -380,6 +380,24 @@ def _join_env_keys(r, v, out):
     return out
 
 
+def num_text(r, x):
+    """the number x written in one of the spellings Python's float() reads back to exactly x: repr, upper-case E, a padded
+    17-digit mantissa, '5.' / '5' for whole numbers, '.5' for a leading zero"""
+    t = repr(x)
+    c = r.random()
+    if c < 0.7 or not isinstance(x, float) or x != x or x in (float("inf"), float("-inf")):
+        return t
+    alt = [t.replace("e", "E"), "%.17e" % x, "%.17E" % x]
+    if x == int(x) and abs(x) < 1e15:
+        alt += ["%d." % int(x), "%d" % int(x), "%d.000" % int(x)]
+    if t.startswith("0.") and "e" not in t:
+        alt.append(t[1:])
+    if t.startswith("-0.") and "e" not in t:
+        alt.append("-" + t[2:])
+    t2 = r.choice(alt)
+    return t2 if float(t2) == x and (x != 0 or str(float(t2)) == str(x)) else t
+
+
 class Rendering:
     """A choice of unit system per nesting level and of quantity form per field,
     drawn lazily from a seeded RNG so that it is reproducible from (seed, salt)."""
@@ -392,6 +410,7 @@ class Rendering:
         self.same = same           # if given: every level uses this system
         self.molecule_state = molecule_state   # system level counts in molecules, state given as bare numbers
         self.log = {}
+        self.notes = {}            # what else was varied (not a unit system per level)
         self.handed_in = []        # mutable containers / quantity objects handed to constructors (see scribble())
 
     def keep(self, obj):
@@ -453,7 +472,7 @@ class Rendering:
         num = q_bare(si_value, own, dim3)
         ustr = si.unit_string(own, dim3, style=self.r.choice([0, 1, 2, 3, 0, 1, 2, 3, 4, 5]))
         if form == "str":
-            return "%r %s" % (num, ustr)
+            return "%s %s" % (num_text(self.r, num), ustr)
         from strengths.units import UnitValue
         return self.keep(UnitValue(num, ustr))
 
@@ -474,7 +493,7 @@ class Rendering:
                 # an entry for an environment this network does not list (a species or reaction object shared with a model that
                 # has more compartments): legal, and without effect here
                 out[self.r.choice(["ghost_env", "nucleus_of_another_model"])] = self.q(self.r.choice([1.0, 2.5, 0.0]), dim3, enclosing)
-                self.log["entries_for_unlisted_environments"] = self.log.get("entries_for_unlisted_environments", 0) + 1
+                self.notes["entries_for_unlisted_environments"] = self.notes.get("entries_for_unlisted_environments", 0) + 1
             return self.keep(out)
         return self.q(v, dim3, enclosing)
 
@@ -526,13 +545,42 @@ def eq_string(sub, prod, r=None):
     return side(sub) + " -> " + side(prod)
 
 
+# the documented order of the constructors' parameters: part of the time a leading run of the arguments is passed by position
+SIGNATURES = {
+    "Species": ["label", "D", "density", "chstt", "units_system"],
+    "Reaction": ["stoichiometry", "kf", "kr", "label", "units_system"],
+    "RDNetwork": ["species", "reactions", "environments", "units_system"],
+    "RDGridSpace": ["w", "h", "d", "cell_env", "cell_vol", "boundary_conditions", "units_system"],
+    "RDGraphSpaceNode": ["volume", "environment", "units_system"],
+    "RDGraphSpaceEdge": ["i", "j", "surface", "distance", "units_system"],
+    "RDGraphSpace": ["nodes", "edges", "units_system"],
+    "RDSystem": ["network", "space", "state", "chemostats", "units_system"],
+    "RDScript": ["system", "t_sample", "time_step", "t_max", "sampling_policy", "sampling_interval", "rng_seed", "init_state_processing",
+                 "units_system"],
+}
+
+
+def construct(r, cls, **kw):
+    """cls(**kw), or the same call with the first k parameters (documented order) given by position"""
+    order = SIGNATURES[cls.__name__]
+    if r.random() < 0.3:
+        lead = 0
+        while lead < len(order) and order[lead] in kw:
+            lead += 1
+        k = r.randint(0, lead)
+        args = [kw[n_] for n_ in order[:k]]
+        rest = {n_: v_ for n_, v_ in kw.items() if n_ not in order[:k]}
+        return cls(*args, **rest)
+    return cls(**kw)
+
+
 def render_network(desc, rd, parent_sys):
     from strengths import Species, Reaction, RDNetwork, UnitsSystem
     nsys = rd.level("network", parent_sys)
     species = []
     for n, s in enumerate(desc["species"]):
         ssys = rd.level("species%d" % n, nsys)
-        species.append(Species(label=s["label"], D=rd.per_env(s["D"], D_DIM, ssys),
+        species.append(construct(rd.r, Species, label=s["label"], D=rd.per_env(s["D"], D_DIM, ssys),
                                density=rd.per_env(s["density"], DENS_DIM, ssys),
                                chstt=(dict(s["chstt"]) if isinstance(s["chstt"], dict) else s["chstt"]),
                                units_system=UnitsSystem(**si.sys_dict(ssys))))
@@ -544,9 +592,9 @@ def render_network(desc, rd, parent_sys):
             sto = eq_string(x["sub"], x["prod"], rd.r)
         else:
             sto = rd.keep([rd.keep(dict(x["sub"])), rd.keep(dict(x["prod"]))])
-        reactions.append(Reaction(sto, kf=rd.per_env(x["kf"], K_DIM(no), rsys), kr=rd.per_env(x["kr"], K_DIM(mo), rsys),
+        reactions.append(construct(rd.r, Reaction, stoichiometry=sto, kf=rd.per_env(x["kf"], K_DIM(no), rsys), kr=rd.per_env(x["kr"], K_DIM(mo), rsys),
                                   label=x.get("label"), units_system=UnitsSystem(**si.sys_dict(rsys))))
-    return RDNetwork(species=rd.keep(list(species)), reactions=rd.keep(list(reactions)), environments=rd.keep([fresh(e_) for e_ in desc["envs"]]),
+    return construct(rd.r, RDNetwork, species=rd.keep(list(species)), reactions=rd.keep(list(reactions)), environments=rd.keep([fresh(e_) for e_ in desc["envs"]]),
                      units_system=UnitsSystem(**si.sys_dict(nsys)))
 
 
@@ -569,7 +617,7 @@ def render_space(desc, rd, parent_sys):
     sp = desc["space"]
     ssys = rd.level("space", parent_sys)
     if sp["type"] == "grid":
-        return RDGridSpace(w=rd.num(sp["w"]), h=rd.num(sp["h"]), d=rd.num(sp["d"]),
+        return construct(rd.r, RDGridSpace, w=rd.num(sp["w"]), h=rd.num(sp["h"]), d=rd.num(sp["d"]),
                            cell_env=(rd.seq(sp["cell_env"], integer=True) if len(set(sp["cell_env"])) > 1 or rd.r.random() < 0.7
                                      else rd.num(sp["cell_env"][0])),
                            cell_vol=rd.q(sp["cell_vol"], VOL_DIM, ssys), boundary_conditions=rd.keep(bc_dict_form(sp["bc"], rd.r)),
@@ -577,14 +625,14 @@ def render_space(desc, rd, parent_sys):
     nodes, edges = [], []
     for n, nd in enumerate(sp["nodes"]):
         nsys = rd.level("node%d" % n, ssys)
-        nodes.append(RDGraphSpaceNode(volume=rd.q(nd["vol"], VOL_DIM, nsys), environment=rd.num(nd["env"]),
+        nodes.append(construct(rd.r, RDGraphSpaceNode, volume=rd.q(nd["vol"], VOL_DIM, nsys), environment=rd.num(nd["env"]),
                                       units_system=UnitsSystem(**si.sys_dict(nsys))))
     for n, e in enumerate(sp["edges"]):
         esys = rd.level("edge%d" % n, ssys)
-        edges.append(RDGraphSpaceEdge(i=rd.num(e["i"]), j=rd.num(e["j"]), surface=rd.q(e["sfc"], SFC_DIM, esys),
+        edges.append(construct(rd.r, RDGraphSpaceEdge, i=rd.num(e["i"]), j=rd.num(e["j"]), surface=rd.q(e["sfc"], SFC_DIM, esys),
                                       distance=rd.q(e["dst"], LEN_DIM, esys),
                                       units_system=UnitsSystem(**si.sys_dict(esys))))
-    return RDGraphSpace(nodes=rd.keep(list(nodes)), edges=rd.keep(list(edges)), units_system=UnitsSystem(**si.sys_dict(ssys)))
+    return construct(rd.r, RDGraphSpace, nodes=rd.keep(list(nodes)), edges=rd.keep(list(edges)), units_system=UnitsSystem(**si.sys_dict(ssys)))
 
 
 class InputModified(AssertionError):
@@ -661,13 +709,13 @@ def render_system(desc, rd):
     # the per-species dictionaries are the caller's: building a system from them leaves them as they were, so that the same
     # dictionaries can serve for the next system (part of the time the system handed on IS that second one)
     snap = {k_: _dict_snapshot(v_) for k_, v_ in kw.items() if isinstance(v_, dict)}
-    system = RDSystem(network=net, space=space, units_system=UnitsSystem(**si.sys_dict(sysu)), **kw)
+    system = construct(rd.r, RDSystem, network=net, space=space, units_system=UnitsSystem(**si.sys_dict(sysu)), **kw)
     for k_, before in snap.items():
         if _dict_snapshot(kw[k_]) != before:
             raise InputModified("RDSystem(...) modified the %s dictionary it was given: %s -> %s" % (k_, before[:3], _dict_snapshot(kw[k_])[:3]))
     if snap and rd.r.random() < 0.5:
         system = RDSystem(network=net, space=space, units_system=UnitsSystem(**si.sys_dict(sysu)), **kw)
-        rd.log["built_twice_from_the_same_dictionaries"] = True
+        rd.notes["built_twice_from_the_same_dictionaries"] = True
     rd.scribble()
     # a copy is the same model: part of the time the system handed to the check is a copy of the one built, made in one of
     # the ways the package offers (copy() of the system, copy.deepcopy, or a system rebuilt from copies of its parts)
@@ -729,7 +777,7 @@ def _q_json(rd, si_value, dim3, enclosing):
     if form == "bare":
         return q_bare(si_value, enclosing, dim3)
     own = rd.sys_draw(rd.r) if rd.same is None else rd.same
-    return "%r %s" % (q_bare(si_value, own, dim3), si.unit_string(own, dim3, style=rd.r.choice([0, 1, 2, 3, 0, 1, 2, 3, 4, 5])))
+    return "%s %s" % (num_text(rd.r, q_bare(si_value, own, dim3)), si.unit_string(own, dim3, style=rd.r.choice([0, 1, 2, 3, 0, 1, 2, 3, 4, 5])))
 
 
 def _per_env_json(rd, v, dim3, enclosing):
